@@ -71,6 +71,18 @@ def fault_catalogue():
     return out
 
 
+SAN_KINDS = ["subset", "cn-only", "no-san", "other-case", "extra", "reordered"]
+
+
+def san_catalogue():
+    """Issuances without any protocol fault whose end-entity certificate carries the key of the CSR but a CHOSEN
+    subjectAltName set (mock CA option `leaf_sans`): a subset of the names, the missing name only as subject CN, no
+    extension at all, a name in another letter case, one name more, another order.  For C03 such a certificate is a
+    parseable chain whose leaf key matches: whether it is installed or refused, certificate and key must go together
+    (what the renewal schedule makes of the names is C06's matter).  Position `cert`."""
+    return [("cert-san-" + k, {"leaf_sans": k}, 1) for k in SAN_KINDS]
+
+
 def applicable(pos, label):
     kind = pos[0]
     if label.startswith("cert-"):
@@ -84,9 +96,9 @@ def applicable(pos, label):
     return True
 
 
-def grid(kp_reuse_values=(False, True), pair_values=(False, True)):
+def grid(kp_reuse_values=(False, True), pair_values=(False, True), san=False):
     out = []
-    cat = fault_catalogue()
+    cat = fault_catalogue() + (san_catalogue() if san else [])
     for pos in POSITIONS:
         for label, ans, times in cat:
             if not applicable(pos, label):
@@ -151,6 +163,8 @@ def run_fault(sc, root, helper, n_postop=1, extra_opts=None, hook_exits=None, ti
         opts["chain_len"] = 3
     elif "chain_opts" in ans:
         opts.update(ans.pop("chain_opts"))
+    elif "leaf_sans" in ans:
+        opts.setdefault("leaf_sans", ans.pop("leaf_sans"))      # (a scenario's own `ca_opts` may say: per issuance)
     elif ans.pop("other_key_cert", False):
         other = helper.call({"op": "selfsigned", "dns": [i["dns"] for i in IDENTS], "ips": [], "not_after_offset": 90 * 86400})
         opts["cert_body"] = other["cert_pem"]
@@ -192,6 +206,8 @@ def add_fault(fs, opts, rules, helper):
         opts["chain_len"] = 3
     elif "chain_opts" in ans:
         opts.update(ans.pop("chain_opts"))
+    elif "leaf_sans" in ans:
+        opts.setdefault("leaf_sans", ans.pop("leaf_sans"))
     elif ans.pop("other_key_cert", False):
         other = helper.call({"op": "selfsigned", "dns": [i["dns"] for i in IDENTS], "ips": [], "not_after_offset": 90 * 86400})
         opts["cert_body"] = other["cert_pem"]
@@ -213,7 +229,7 @@ def faults_fired(obs):
 def fault_hit(obs):
     """Did the injected fault actually fire (the flow reached that position)?"""
     return any(e.get("rule") for e in obs["ca"] if e["kind"] == "req") or obs["sc"]["fault"] in ("cert-other-key", "cert-chain-reversed") \
-        or "-block-" in obs["sc"]["fault"]
+        or "-block-" in obs["sc"]["fault"] or any(e["kind"] == "issued" and e.get("leaf_sans") for e in obs["ca"])
 
 
 def attempts_of(obs):
